@@ -211,7 +211,14 @@ pub fn compose_std_command<S: AsRef<OsStr>, SE: extensions::ShellExtensions>(
         for (func_name, registration) in context.shell.funcs().iter() {
             if registration.is_exported() {
                 let var_name = std::format!("BASH_FUNC_{func_name}%%");
-                let value = std::format!("() {}", registration.definition().body);
+                // N.B. bash only imports values of the form `() { ... }`; a body that is not a
+                // brace group (`f() ( ... )`, `f() if ...`) is wrapped in one, as bash does.
+                let body = &registration.definition().body;
+                let value = if matches!(body.0, ast::CompoundCommand::BraceGroup(_)) {
+                    std::format!("() {body}")
+                } else {
+                    std::format!("() {{ {body}\n}}")
+                };
                 cmd.env(var_name, value);
             }
         }
